@@ -9,7 +9,7 @@ open Lean (Json)
 
 /-- driver state (the session model lives here later) -/
 structure DState where
-  sess : Option Sess := none
+  sess : Option World := none
 
 def dispatch (st : DState) (j : Json) : Except String (DState × Json) := do
   let op ← getStr j "op"
@@ -62,19 +62,19 @@ def dispatch (st : DState) (j : Json) : Except String (DState × Json) := do
       pure (st, optHex (constructRouteRefresh (← getNat j "type") (← getNat j "afi") (← getNat j "res") (← getNat j "safi")))
   | "sess.reset" => do
       let cfg ← readCfg (← j.getObjVal? "cfg")
-      pure ({ st with sess := some (boot cfg) }, obj [("ok", Json.bool true)])
+      pure ({ st with sess := some (bootWorld cfg) }, obj [("ok", Json.bool true)])
   | "sess.enabled" => do
       match st.sess with
       | none => throw "no session"
-      | some s => pure (st, obj [("enabled", Json.bool (enabled s (← readEv (← j.getObjVal? "ev"))))])
+      | some w => pure (st, obj [("enabled", Json.bool (enabled w.sess (← readEv (← j.getObjVal? "ev"))))])
   | "sess.ev" => do
       match st.sess with
       | none => throw "no session"
-      | some s =>
+      | some w =>
         let ev ← readEv (← j.getObjVal? "ev")
-        if enabled s ev then
-          let s' := step updClassOf s ev
-          pure ({ st with sess := some s' }, obsJson s')
+        if enabled w.sess ev then
+          let w' := step updClassOf w ev
+          pure ({ st with sess := some w' }, obsJson w'.sess)
         else pure (st, obj [("disabled", Json.bool true)])
   | "spec.refopen" => do pure (st, ← specRefOpen j)
   | _ => throw s!"unknown op {op}"
